@@ -29,7 +29,19 @@ CANARIES = ["final_re", "last_ldc", "init_re", "init_sum", "trans_re", "trans_ld
 
 
 def run_parallel(rows, name, nproc, extra=None, timeout=3000):
-    parts = [rows[i::nproc] for i in range(nproc)]
+    # longest-processing-time-first over an estimated cost (blinded circuits are ~30x larger)
+    def cost(r):
+        c = 1.0 + sum(len(t["pairs"]) + len(t["lookups"]) for t in r["tables"]) / 60.0
+        c *= 2.0 if r["cfg"]["width"] == "wide" else 1.0
+        c *= 0.15 if len(r["kinds"]) <= 2 else 1.0
+        return c * (8.0 if r["cfg"]["zk"] else 1.0)
+
+    parts = [[] for _ in range(nproc)]
+    load = [0.0] * nproc
+    for r in sorted(rows, key=lambda r: (-cost(r), r["id"])):
+        i = load.index(min(load))
+        parts[i].append(r)
+        load[i] += cost(r)
     files = []
     for i, part in enumerate(parts):
         fp = os.path.join(common.OUT, "%s.part%d.ndjson" % (name, i))
